@@ -973,10 +973,12 @@ def run(ctx):
         'theorems biform_1d_entry / biform_asym_entry: the assembled matrix of the model is the Gram matrix of the Cox-de Boor '
         'reference derivatives at the quadrature nodes (uses C02 active_derivs_eq_spec, dN_local); mass_sum_bspline, mass_sum_domain, '
         'stiff_kernel_bspline, biform_1d_symmetric/_psd discharge the partition-of-unity / derivative-sum hypotheses with C02; '
-        'nqp_default_suffices/_exact + generated leggauss_default_exact: default node count vs. table exactness',
+        'nqp_default_suffices/_exact + generated leggauss_default_exact: default node count vs. table exactness; '
+        'nref_poly/dnref_poly (coq/C09/Poly.v, Proofs_exact.v): the reference functions are explicit polynomials of degree <= p-k on every '
+        'open span, biform_1d_entry_exact_partial / biform_asym_entry_exact_partial: entries = sums of exactly integrated product '
+        'polynomials up to eps * sum half-width * l1norm under the table hypothesis rule_ok',
         'float tie: |impl - exact model| <= R (rounding bound in the module docstring); structure (mesh, span indices, first-active, shape, stored pattern) exactly',
-        'not covered by theorems: the piecewise-polynomial structure of dNref on a span (degree <= p-k), exactness of Gauss-Legendre '
-        'quadrature beyond the bounded check of the tables + linearity, '
+        'not covered by theorems: exactness of Gauss-Legendre quadrature beyond the bounded check of the tables + linearity, '
         'unisolvence (definiteness, dimension of the kernel: checked numerically and by exact rank on the oracle), '
         'the ACA-based C++ assembler fastasm.cc (tolerance test only), NURBS area (coarse 1% check)',
     ]
@@ -1160,6 +1162,6 @@ META = {
                   'mass_fast/stiffness_fast entrywise (and stored pattern) against the generic assembler.',
     'level_note': 'proved: assembled 1D matrices (symmetric and two-space routine) = Gram matrices of the reference B-spline derivatives for every kv_ok '
                   'knot vector, hence sum = |domain|, K*1 = 0, symmetry, PSD for the model\'s output; default nqp is the least sufficient node count. '
-                  'partial: polynomial structure per span + Gauss exactness only as bounded table check + linearity; definiteness / kernel dimension '
+                  'entries = exactly integrated span polynomials up to the table defect (rule_ok hypothesis). partial: Gauss exactness only as bounded table check + linearity; definiteness / kernel dimension '
                   'numerically and by exact rank; fastasm.cc tolerance test only',
 }
